@@ -77,38 +77,38 @@ End Hyp.
 (** ** Property theorems *)
 
 Theorem C13_primary_energy_nonneg : forall fs0 c area lm n ep,
-  reg_set fs0 -> nonneg_data (c_data c) -> dom_data (c_data c) -> wf n (c_data c) -> (0 < n)%nat ->
+  reg_set fs0 -> nonneg_data (c_data c) -> wf n (c_data c) -> (0 < n)%nat ->
   energy_performance c fs0 0 area lm = Ok ep ->
   0 <= ren (t_we_b ep) /\ 0 <= nren (t_we_b ep) /\ 0 <= co2 (t_we_b ep).
-Proof. intros. repeat split; [eapply ren_total_nonneg|eapply nren_total_nonneg|eapply co2_total_nonneg]; eassumption. Qed.
+Proof. intros fs0 c area lm n ep Hrs Hn. pose proof (dom_of_nonneg _ Hn). intros. repeat split; [eapply ren_total_nonneg|eapply nren_total_nonneg|eapply co2_total_nonneg]; eassumption. Qed.
 
 Theorem C13_rer_range : forall fs0 c area lm n ep,
-  reg_set fs0 -> nonneg_data (c_data c) -> dom_data (c_data c) -> wf n (c_data c) -> (0 < n)%nat ->
+  reg_set fs0 -> nonneg_data (c_data c) -> wf n (c_data c) -> (0 < n)%nat ->
   energy_performance c fs0 0 area lm = Ok ep ->
   0 < rtot (t_we_b ep) -> 0 <= t_rer ep /\ t_rer ep <= 1.
-Proof. intros. eapply rer_range; eassumption. Qed.
+Proof. intros fs0 c area lm n ep Hrs Hn. pose proof (dom_of_nonneg _ Hn). intros. eapply rer_range; eassumption. Qed.
 
 Theorem C13_nrb_le_rer : forall fs0 c area lm n ep,
-  reg_set fs0 -> nonneg_data (c_data c) -> dom_data (c_data c) -> wf n (c_data c) -> (0 < n)%nat ->
+  reg_set fs0 -> nonneg_data (c_data c) -> wf n (c_data c) -> (0 < n)%nat ->
   energy_performance c fs0 0 area lm = Ok ep ->
   0 < rtot (t_we_b ep) -> t_rer_nrb ep <= t_rer ep.
-Proof. intros. eapply nested_nrb_le_rer; eassumption. Qed.
+Proof. intros fs0 c area lm n ep Hrs Hn. pose proof (dom_of_nonneg _ Hn). intros. eapply nested_nrb_le_rer; eassumption. Qed.
 
 Theorem C13_onst_nonneg : forall fs0 c area lm n ep,
-  reg_set fs0 -> nonneg_data (c_data c) -> dom_data (c_data c) -> wf n (c_data c) -> (0 < n)%nat ->
+  reg_set fs0 -> nonneg_data (c_data c) -> wf n (c_data c) -> (0 < n)%nat ->
   energy_performance c fs0 0 area lm = Ok ep -> 0 <= t_rer_onst ep.
-Proof. intros. eapply onst_rer_nonneg; eassumption. Qed.
+Proof. intros fs0 c area lm n ep Hrs Hn. pose proof (dom_of_nonneg _ Hn). intros. eapply onst_rer_nonneg; eassumption. Qed.
 
 (** the full nesting 0 <= RER_onst <= RER_nrb <= RER holds for every building that exports no electricity;
     with exported electricity it fails (known finding, see C13_nested_refuted) *)
 Theorem C13_nested_partial : forall fs0 c area lm n ep,
-  reg_set fs0 -> nonneg_data (c_data c) -> dom_data (c_data c) -> wf n (c_data c) -> (0 < n)%nat ->
+  reg_set fs0 -> nonneg_data (c_data c) -> wf n (c_data c) -> (0 < n)%nat ->
   energy_performance c fs0 0 area lm = Ok ep ->
   (forall b, In b (ep_bal ep) -> is_el b = true -> we_exp_a (bc_we b) = rnc0) ->
   0 < rtot (t_we_b ep) ->
   0 <= t_rer_onst ep /\ t_rer_onst ep <= t_rer_nrb ep /\ t_rer_nrb ep <= t_rer ep.
 Proof.
-  intros. repeat split; [eapply onst_rer_nonneg|eapply nested_onst_le_nrb_no_export|eapply nested_nrb_le_rer]; eassumption.
+  intros fs0 c area lm n ep Hrs Hn. pose proof (dom_of_nonneg _ Hn). intros. repeat split; [eapply onst_rer_nonneg|eapply nested_onst_le_nrb_no_export|eapply nested_nrb_le_rer]; eassumption.
 Qed.
 
 Theorem C13_rer_zero_total : forall ep, rtot (t_we_b ep) = 0 -> t_rer ep = 0 /\ t_rer_nrb ep = 0 /\ t_rer_onst ep = 0.
